@@ -169,7 +169,21 @@ fn step(st: &mut St, ws: &[&str]) -> String {
             let sel = Selection::builder().ksize(KSIZE).scaled(1).build();
             st.mem = Some(mem_revindex::RevIndex::new_with_sigs(sigs_of(&st.coll), &sel, 0, None).unwrap());
             let tmp = scratch_dir();
-            let idx = RevIndex::create(tmp.path().join("idx"), mem_collection(sigs_of(&st.coll)), false).unwrap();
+            // every other case builds the on-disk index in two increments (create over the first
+            // dataset, then update with the whole collection): lookups must not depend on how the
+            // index came to be (C09's T-extend says the two builds are indistinguishable)
+            let n: u64 = ws[1].parse().unwrap_or(0);
+            let idx = if n % 2 == 1 && st.coll.len() >= 3 {
+                let first = RevIndex::create(
+                    tmp.path().join("idx"),
+                    mem_collection(sigs_of(&st.coll[..1].to_vec())),
+                    false,
+                )
+                .unwrap();
+                first.update(mem_collection(sigs_of(&st.coll))).unwrap()
+            } else {
+                RevIndex::create(tmp.path().join("idx"), mem_collection(sigs_of(&st.coll)), false).unwrap()
+            };
             st.disk = Some((idx, tmp));
             "ok".into()
         }
